@@ -44,7 +44,8 @@ def run(ck):
             crng = ck.rng("case", i)
             fam = FAMILIES[(i // max(1, ck.nshards)) % len(FAMILIES)]
             try:
-                one_case(ck, crng, fam)
+                with ck.watchdog(180, "case %d family %s" % (i, fam)):
+                    one_case(ck, crng, fam)
             except ScratchFailed as e:
                 ck.observe("scratch-upload-failed")
             if ck.tier == "quick" and ck.evaluations >= 1500:
